@@ -1,6 +1,6 @@
 CONSTANTS
   MaxNodes = 3
-  Conds = {"none", "skipA", "includeA"}
+  Conds = {"none", "skipA", "includeA", "includeAskipB"}
   Aliases = {"", "x"}
 INIT Init
 NEXT Next
